@@ -25,8 +25,9 @@ def sh(cmd, cwd, env=None, timeout=1800):
 def main():
     pid, i = sys.argv[1], sys.argv[2]
     checks = sys.argv[3:] or [pid]
-    src = f"/tmp/seed/{pid}/SEED"
-    sid = f"{pid}-{i}"
+    root = os.environ.get("SEED_ROOT", "/tmp/seed")
+    src = f"{root}/{pid}/SEED"
+    sid = f"{pid}-{int(i) + int(os.environ.get('SEED_OFFSET', '0'))}"
     dst = os.path.join(VERIF, "seeded", sid)
     os.makedirs(dst, exist_ok=True)
     shutil.copy(f"{src}/patch{i}.diff", f"{dst}/patch.diff")
